@@ -254,3 +254,13 @@ def diff_cases(rng, n):
         gaps = [rng.choice(edge) if rng.random() < 0.5 else rng.randint(0, 140) for _ in range(m)]
         T = rng.choice(edge[1:]) if rng.random() < 0.5 else rng.randint(1, 192)
         yield (tuple(order), notif, gaps, T)
+
+
+# ------------------------------------------------------------------ stdio routing: two callers with registered per-request streams
+def pending_two_callers(mode, swap):
+    """two requests are outstanding on one stdio connection, each with its own registered stream; the first
+    caller's stream is (mode 1) already closed when its late answer arrives.  The other caller - alive, but not
+    suspended in receive() at that moment - still gets its own message (h_C05.routing_legacy_pending)"""
+    from harness.h_C05 import routing_legacy_pending
+
+    return routing_legacy_pending(("req", "resp") if swap else ("resp", "req"), mode, False)
